@@ -205,6 +205,10 @@ class FakeData:
         name = origname.lower()
 
         meth = self.fake_names.get(name, NotImplemented)
+        if meth == NotImplemented:
+            # underscores do not matter wherever they are: the canonical
+            # (no-underscore) form of every name is always a key of the table
+            meth = self.fake_names.get(name.replace("_", ""), NotImplemented)
 
         if meth != NotImplemented:
             ret = meth(*args, **kwargs)
